@@ -200,8 +200,8 @@ func (a *w3Analysis) run() {
 		writtenByID[a.h.written[i].ID] = &a.h.written[i]
 	}
 	if a.prop == "C27" {
-		twice := make([]string, 0, len(a.h.twice))
-		for name := range a.h.twice {
+		twice := make([]string, 0, len(a.h.twiceSame))
+		for name := range a.h.twiceSame {
 			twice = append(twice, name)
 		}
 		sort.Strings(twice)
@@ -335,7 +335,14 @@ func (a *w3Analysis) finalChecks(files []*w3File, written map[int64]*w3Written) 
 			// neighbours are not consecutive any more; that is reported as segment-overwritten)
 			// "one stream" = one recorder instance: a write error (maximum part size) or a jump of
 			// absolute time makes the server start a new instance, whose segments are a new stream
-			if pe >= 0 && pe == ce && a.h.segInst[prev.name] == a.h.segInst[f.name] && !a.h.twice[prev.name] && !a.h.twice[f.name] {
+			// the instant a segment is labelled with is the absolute time of its oldest sample
+			// (the recorder may start a segment up to one second before the sample it writes first)
+			mislabelled := false
+			if off, ok := a.labelOff(f, written); ok && (off > 1100*time.Millisecond || off < -1100*time.Millisecond) {
+				mislabelled = true
+				a.violate("C27", "segment-start-time-wrong", "segment %s is labelled with an instant %s away from the absolute time its oldest sample was published with: the recorder started it from a pending sample of another track whose absolute time had jumped, and which it had not examined yet (it restarts when it does)", f.name, off)
+			}
+			if pe >= 0 && pe == ce && a.h.segInst[prev.name] == a.h.segInst[f.name] && !a.h.twice[prev.name] && !a.h.twice[f.name] && !mislabelled {
 				ok := a.realConcatenable(prev, f)
 				if !ok {
 					a.violate("C27", "not-continuous", "segments %s and %s were recorded back to back from one stream but are not recognised as continuous", prev.name, f.name)
@@ -344,6 +351,24 @@ func (a *w3Analysis) finalChecks(files []*w3File, written map[int64]*w3Written) 
 		}
 		prev = f
 	}
+}
+
+// labelOff returns the distance between the instant a segment is labelled with and the
+// absolute time of the oldest sample of its first part.
+func (a *w3Analysis) labelOff(f *w3File, written map[int64]*w3Written) (time.Duration, bool) {
+	if f.init == nil || f.init.mtxi == nil || len(f.parts) == 0 {
+		return 0, false
+	}
+	var oldest time.Time
+	for _, s := range f.parts[0].samples {
+		if w := written[s.id]; w != nil && (oldest.IsZero() || w.NTP.Before(oldest)) {
+			oldest = w.NTP
+		}
+	}
+	if oldest.IsZero() {
+		return 0, false
+	}
+	return time.Unix(0, f.init.mtxi.ntp).Sub(oldest), true
 }
 
 func (a *w3Analysis) epochOf(f *w3File, written map[int64]*w3Written) int {
